@@ -1,7 +1,7 @@
 (* C03 - Every request ends exactly once, with one reply, in bounded time.  Only statements here; proofs by `exact`.
    Model: Model/Proxy.v (one request of pkg/proxy/downstream.go; worker = one step per Go phase, every asynchronous handler one
    atomic guarded step).  `proxy_src` = the switches READ FROM THE SOURCE on this run (Gen/ProxyTokens.v).
-   `family` (Proofs/ProxyFam.v) = 593 configurations enumerated explicitly: 4 request shapes x retry_on x per-try x breaker x 5 pool
+   `family` (Proofs/ProxyFam.v) = 611 configurations enumerated explicitly: 4 request shapes x retry_on x per-try x breaker x 5 pool
    scripts; non-forwarding routes; every 1- and 2-filter chain over the verdicts; hijack-and-continue chains; larger budgets.
    `allowed` (Proofs/ProxyFamily.v) = the event alphabet: upstream response (status 200/503, with or without body+trailers) and reset (4 reasons)
    for ANY attempt index, per-try and global timer expiry, client disconnect, TerminateStream(403), wake-ups, worker steps.
@@ -149,6 +149,42 @@ Example c03_sender_error_example :
   g_hdr (summ proxy_src c sched) = 1%nat /\ g_ended (summ proxy_src c sched) = true /\ g_clean (summ proxy_src c sched) = 1%nat /\
   g_destroy (summ proxy_src c sched) = 1%nat /\ 1 + g_gauge (summ proxy_src c sched) = 0.
 Proof. exact snd_err_example_holds. Qed.
+
+(* ---- histories of several requests served from the same pooled downStream object ----
+   the object is zeroed when it is given back to the buffer pool (giveStream inside cleanStream); whatever is assigned to it
+   afterwards is seen by the next request that takes it ([next_request]).  onUpstreamHeaders marks the response as started BEFORE it
+   hands the headers to the sender (appendHeaders may end, clean and give back the stream) and assigns nothing afterwards - read
+   from the source on this run: *)
+Theorem c03_response_marked_started_before_append : started_marked_first proxy_src = true.
+Proof. exact (eq_refl true). Qed.
+(* family x every schedule: nothing is written after give-back, so the next request starts in the initial state ... *)
+Theorem c03_next_request_starts_fresh_family : forall c, In c family -> forall sched, Forall allowed sched ->
+  forall rc0, next_request proxy_src (final proxy_src c sched) rc0 = init_st rc0.
+Proof. exact c03_next_request_fresh_family. Qed.
+Print Assumptions c03_next_request_starts_fresh_family.
+(* ... and in any history of requests on one object, request k runs exactly as if it were alone *)
+Theorem c03_history_independent_family : forall h,
+  Forall (fun cs => In (fst cs) family /\ Forall allowed (snd cs)) h ->
+  run_history proxy_src (init_st 0) h = map (fun cs => run proxy_src (fst cs) (init_st 0) (snd cs)) h.
+Proof. exact ProxyThm.c03_history_independent_family. Qed.
+Print Assumptions c03_history_independent_family.
+(* with the assignment after appendHeaders (switch set back) it fails: a headers-only response on the clean path leaves
+   downstreamResponseStarted = true in the pooled object; the next request's pool overflow is answered by resetting the client
+   stream instead of the 503 reply *)
+Theorem c03_write_after_give_back_refuted : ~ fresh_start_statement src_late_started.
+Proof. exact refuted_write_after_give. Qed.
+Print Assumptions c03_write_after_give_back_refuted.
+Example c03_write_after_give_back_witness :
+  gave (final src_late_started plain_cfg sched_answered_plain) = true /\
+  late_started (final src_late_started plain_cfg sched_answered_plain) = true /\
+  resp_started (next_request src_late_started (final src_late_started plain_cfg sched_answered_plain) 0) = true /\
+  g_started (gs_outs gs0 (snd (second_run src_late_started))) = false /\
+  existsb (fun o => match o with ODownReset => true | _ => false end) (snd (second_run src_late_started)) = true /\
+  late_started (final src_tree plain_cfg sched_answered_plain) = false /\
+  next_request src_tree (final src_tree plain_cfg sched_answered_plain) 0 = init_st 0 /\
+  g_reply_kind (gs_outs gs0 (snd (second_run src_tree))) = Some (KHijack, reason_code src_tree RsOverflow) /\
+  g_ended (gs_outs gs0 (snd (second_run src_tree))) = true.
+Proof. exact witness_write_after_give. Qed.
 
 (* ---- time-out liveness ---- *)
 (* a parked worker is always guarded by an armed timer (so a silent upstream cannot hang the request) ... *)
